@@ -82,6 +82,8 @@ struct Case {
     #[serde(default)]
     menu: String, // cv: "full" = every (model, fold) for fit and eval faults; "short" = none, two end points, double fault
     #[serde(default)]
+    styles: String, // cv: "" / "full" = every model overwrites every prediction; "mixed" = model 0 full, the others sparse; "all_sparse"
+    #[serde(default)]
     consume: Option<usize>, // iter_fold: items taken before the iterator is dropped; None = {all, 0}
 }
 
@@ -843,6 +845,32 @@ fn pred_value(rowid: f64, col: usize, mid: usize, fp: u64) -> f64 {
     3.0 * rowid + 7.0 * col as f64 + MODEL_STRIDE * (mid as f64 + 1.0) + (fp % 512) as f64 / 8.0
 }
 
+/// Sparse models: `predict_inplace` only writes the rows its rule fires for and relies on its own
+/// `default_target` (a model-specific fallback value, column-major for 2-d targets) for the others.
+/// `PredictInplace` allows exactly that, so the array an evaluation sees for model j must be
+/// `model_j.predict(validation records)` and nothing left over from another model.
+fn is_sparse(styles: &str, mid: usize) -> bool {
+    match styles {
+        "mixed" => mid > 0,
+        "all_sparse" => true,
+        _ => false,
+    }
+}
+fn rule_fires(rowid: f64, mid: usize) -> bool {
+    ((rowid.max(0.0) as usize) + mid) % 2 == 0
+}
+fn fallback_value(mid: usize, col: usize) -> f64 {
+    MODEL_STRIDE * (mid as f64 + 1.0) + 900_000.0 + col as f64
+}
+/// What `model.predict(records)` is for the row with tag rowid (reference side and mock side).
+fn model_prediction(sparse: bool, rowid: f64, col: usize, mid: usize, fp: u64) -> f64 {
+    if !sparse || rule_fires(rowid, mid) {
+        pred_value(rowid, col, mid, fp)
+    } else {
+        fallback_value(mid, col)
+    }
+}
+
 struct FitCall {
     part: Part,
 }
@@ -852,12 +880,14 @@ struct MockParams {
     fs: usize,
     k: usize,
     fail_fold: Option<usize>,
+    sparse: bool,
     log: Rc<RefCell<Vec<FitCall>>>,
 }
 struct MockModel {
     id: usize,
     fp: u64,
     t: usize,
+    sparse: bool,
 }
 
 impl<'c, I: TargetDim> Fit<ArrayView2<'c, f64>, ArrayView<'c, f64, I>, MockError> for MockParams {
@@ -882,7 +912,7 @@ impl<'c, I: TargetDim> Fit<ArrayView2<'c, f64>, ArrayView<'c, f64, I>, MockError
                 return Err(MockError::Fit(format!("fit-fault model={} fold={}", self.id, h)));
             }
         }
-        Ok(MockModel { id: self.id, fp, t })
+        Ok(MockModel { id: self.id, fp, t, sparse: self.sparse })
     }
 }
 
@@ -892,6 +922,9 @@ impl<'b, I: TargetDim> PredictInplace<ArrayView2<'b, f64>, Array<f64, I>> for Mo
         let one_d = yd.ndim() == 1;
         for r in 0..x.nrows() {
             let rowid = (x[(r, 0)] / 100.0).floor();
+            if self.sparse && !rule_fires(rowid, self.id) {
+                continue; // this row keeps what default_target put there
+            }
             for cc in 0..self.t {
                 let v = pred_value(rowid, cc, self.id, self.fp);
                 if one_d {
@@ -903,8 +936,14 @@ impl<'b, I: TargetDim> PredictInplace<ArrayView2<'b, f64>, Array<f64, I>> for Mo
         }
     }
     fn default_target(&self, x: &ArrayView2<'b, f64>) -> Array<f64, I> {
-        let sh: Vec<usize> = if I::NDIM == Some(1) { vec![x.nrows()] } else { vec![x.nrows(), self.t] };
-        ArrayD::zeros(IxDyn(&sh)).into_dimensionality::<I>().unwrap()
+        let one_d = I::NDIM == Some(1);
+        let sh: Vec<usize> = if one_d { vec![x.nrows()] } else { vec![x.nrows(), self.t] };
+        if self.sparse {
+            let id = self.id;
+            ArrayD::from_shape_fn(IxDyn(&sh).f(), |ix| fallback_value(id, if one_d { 0 } else { ix[1] })).into_dimensionality::<I>().unwrap()
+        } else {
+            ArrayD::zeros(IxDyn(&sh)).into_dimensionality::<I>().unwrap()
+        }
     }
 }
 
@@ -982,7 +1021,7 @@ fn ref_cv(rf: &Ref, c: &Case) -> CvExpect {
         let fp = train.iter().fold(0u64, |a, &i| a.wrapping_add(fp_row(&rf.rec[i], &rf.tgt[i])));
         let truth: Vec<Vec<f64>> = valid.iter().map(|&i| rf.tgt[i].iter().map(|&b| f64::from_bits(b)).collect()).collect();
         for mid in 0..c.m {
-            let pred: Vec<Vec<f64>> = valid.iter().map(|&i| (0..rf.t).map(|cc| pred_value(i as f64, cc, mid, fp)).collect()).collect();
+            let pred: Vec<Vec<f64>> = valid.iter().map(|&i| (0..rf.t).map(|cc| model_prediction(is_sparse(&c.styles, mid), i as f64, cc, mid, fp)).collect()).collect();
             let e = eval_fn(&c.eval, &pred, &truth, rf.t);
             for cc in 0..rf.t {
                 acc[mid][cc] += 0.0 + e[cc];
@@ -1007,6 +1046,7 @@ fn make_params(c: &Case, fault: &FaultSpec, log: &Rc<RefCell<Vec<FitCall>>>) -> 
             fs: c.n / c.k.max(1),
             k: c.k,
             fail_fold: fault.fit_fault().and_then(|(fm, ff)| if fm == id { Some(ff) } else { None }),
+            sparse: is_sparse(&c.styles, id),
             log: log.clone(),
         })
         .collect()
@@ -1086,7 +1126,7 @@ fn check_cv(op: &str, c: &Case, fault: &FaultSpec, rf: &Ref, exp: &CvExpect, out
     let mut cc = c.clone();
     cc.fault = Some(fault.clone());
     let cj = case_json(&cc);
-    let head = format!("{}(k={}) n={} f={} targets {}-d x{} ({}), {} models, eval '{}', fault {:?}", op, c.k, c.n, c.f, c.tix, c.tcols, c.kind, c.m, c.eval, fault.kind);
+    let head = format!("{}(k={}) n={} f={} targets {}-d x{} ({}), {} models ({}), eval '{}', fault {:?}", op, c.k, c.n, c.f, c.tix, c.tcols, c.kind, c.m, if c.styles.is_empty() { "full" } else { c.styles.as_str() }, c.eval, fault.kind);
     let want_err = expected_errors(fault);
     let mut ok_result = false;
     match out {
@@ -1180,8 +1220,13 @@ fn check_cv(op: &str, c: &Case, fault: &FaultSpec, rf: &Ref, exp: &CvExpect, out
             _ => {
                 let p: Vec<Vec<f64>> = call.0.iter().map(|r| r.iter().map(|&b| f64::from_bits(b)).collect()).collect();
                 let t: Vec<Vec<f64>> = call.1.iter().map(|r| r.iter().map(|&b| f64::from_bits(b)).collect()).collect();
+                // closed form: one prediction array holding values of more than one model
+                let mut bands: Vec<i64> = p.iter().flatten().map(|&x| (x / MODEL_STRIDE).floor() as i64 - 1).collect();
+                bands.sort();
+                bands.dedup();
+                let sig_tail = if bands.len() > 1 && bands.iter().all(|&b| b >= 0 && (b as usize) < c.m) { "predictions_mix_several_models" } else { "eval_called_with_wrong_arguments" };
                 viols.push(Violation::new(
-                    format!("{}.eval_called_with_wrong_arguments", op),
+                    format!("{}.{}", op, sig_tail),
                     format!("{}: evaluation call {} got predictions {} and targets {}: not (predictions of a model fitted on a fold's training part, that fold's validation targets)", head, no, short(&p), short(&t)),
                     cj.clone(),
                 ));
@@ -1411,7 +1456,7 @@ fn main() {
          owned array sliced out of a larger allocation by rows (standard layout, offset start, with sliced weights) and by columns; iter_fold on owned / ArrayViewMut / ArrayViewMut window with guard rows / \
          owned row-slice of a larger allocation (in domain: guard elements of the allocation and the weights must stay untouched) + row-strided, column-major, reversed, transposed, column-sliced storage for the documented panic, \
          element types f64/f64 and f32/u32, iterator consumed completely and dropped unconsumed; \
-         cross_validate (all target shapes) and cross_validate_single (1-d) on the three contiguous kinds x 1..3 mock models x 4 evaluation closures x the fault menu (+ the owned row-slice kind with 'mae' and 1 / 3 models) \
+         cross_validate (all target shapes) and cross_validate_single (1-d) on the three contiguous kinds x 1..3 mock models x 4 evaluation closures x the fault menu (+ the owned row-slice kind with 'mae' and 1 / 3 models; + model styles 'mixed' (model 0 overwrites every prediction, the others only the rows their rule fires for, keeping their own model-specific column-major default_target elsewhere) and 'all_sparse' with 'mae' / 'colsum' and the short fault menu) \
          (none; fit error of every model at every fold; eval error for every model at every fold; one double fault; for n > {full_menu_n} the closures other than 'mae' get the short menu: none, fit error of the last model at fold 0, eval error for model 0 at the last fold, the double fault); degenerate k in {{0, 1, n+1, n+2}} for documented behaviour only. \
          size family: n in {{1025}} (quick) / {{1025, 4097}} (thorough) x k in {{2, 3, 7, 1024, n}}, 3 features (17 for two extra groups), 1-d and 2-d x2 targets, fold / iter_fold / cross_validate(_single) (1 model, 'mae', short fault menu) \
          on standard, strided, column-major, transposed, reversed and sliced-owned storage through the same partition oracle (k = n = 4097: 1 feature, 1-d targets, fresh owned arrays only). \
@@ -1425,13 +1470,14 @@ fn main() {
     ctx.assume("mock fit fingerprints the training rows order-independently; the evaluation closure handed to linfa and the reference loop share the plain-Vec evaluation function (the plumbing is under test, not the metric)");
     ctx.assume("with a double fault either injected error is accepted; which fold's error surfaces first is not specified");
     ctx.assume("k = 0, k = 1, k > n and non-standard layouts are outside the statement: iter_fold's documented panics / validity are checked, fold and cross_validate outcomes are only recorded");
+    ctx.assume("the predictions an evaluation sees for model j must equal model_j.predict(validation records) as recomputed by the harness, including the rows a sparse model leaves at its own default_target value");
     ctx.assume("layouts: every storage kind is judged by the same layout-free reference (sharper than comparing with the standard-layout run); a failure of a non-plain kind whose standard-layout twin passes is additionally reported as <op>.layout_dependence");
     ctx.assume("trusted base: ndarray (views, slicing, is_standard_layout), serde_json");
 
     // ---------------- enumerate ----------------
     let mut cases: Vec<Case> = Vec::new();
     let base = |op: &str, n, k, f, tix, tcols, kind: &str, elem: &str| Case {
-        op: op.into(), n, k, f, tix, tcols, kind: kind.into(), elem: elem.into(), m: 0, eval: String::new(), fault: None, menu: String::new(), consume: None,
+        op: op.into(), n, k, f, tix, tcols, kind: kind.into(), elem: elem.into(), m: 0, eval: String::new(), fault: None, menu: String::new(), styles: String::new(), consume: None,
     };
     for n in 1..=nmax {
         for k in 2..=n {
@@ -1456,6 +1502,28 @@ fn main() {
                             if tix == 1 {
                                 c.op = "cv_single".into();
                                 cases.push(c);
+                            }
+                        }
+                    }
+                    // models that do not overwrite every prediction / have their own default_target
+                    for kind in CV_KINDS {
+                        for m in 1..=3 {
+                            for ev in ["mae", "colsum"] {
+                                for styles in ["mixed", "all_sparse"] {
+                                    if styles == "mixed" && m == 1 {
+                                        continue; // identical to "full"
+                                    }
+                                    let mut c = base("cv", n, k, f, tix, tcols, kind, "f64/f64");
+                                    c.m = m;
+                                    c.eval = ev.into();
+                                    c.menu = "short".into();
+                                    c.styles = styles.into();
+                                    cases.push(c.clone());
+                                    if tix == 1 {
+                                        c.op = "cv_single".into();
+                                        cases.push(c);
+                                    }
+                                }
                             }
                         }
                     }
@@ -1555,6 +1623,9 @@ fn main() {
             let mut s = stats.lock().unwrap();
             *s.entry(format!("runs_{}", c.op)).or_insert(0) += cnt.evals;
             *s.entry(format!("runs_layout_{}", family(&c.kind))).or_insert(0) += cnt.evals;
+            if c.op.starts_with("cv") {
+                *s.entry(format!("runs_cv_model_styles_{}", if c.styles.is_empty() { "full" } else { c.styles.as_str() })).or_insert(0) += cnt.evals;
+            }
             if c.n > 100 {
                 *s.entry(format!("runs_size_family_n{}", c.n)).or_insert(0) += cnt.evals;
             }
